@@ -663,39 +663,19 @@ pub fn probe_child(spec: &str) -> ! {
                 let _ = writeln!(o, "B {i}");
                 let _ = o.flush();
             }
-            // each item runs in a forked copy of this (single-threaded) process, so that an item
-            // that kills its process does not end the batch
             let t0 = std::time::Instant::now();
-            let pid = unsafe { libc::fork() };
-            if pid == 0 {
-                let verdict = match pvkit::panics::guarded(|| targets::run(t, &bytes, Mode::DecodeOnly)) {
-                    Ok(o) => (if o.ok { "ok" } else { "err" }).to_string(),
-                    Err(p) => format!("panic {}", p.sig),
-                };
-                let mut o = out.lock();
-                let _ = writeln!(o, "E {i} {verdict}");
-                let _ = o.flush();
-                unsafe { libc::_exit(0) };
-            }
-            let mut status: libc::c_int = 0;
-            let waited = if pid > 0 { unsafe { libc::waitpid(pid, &mut status, 0) } } else { -1 };
-            if pid < 0 || waited < 0 {
-                let mut o = out.lock();
-                let _ = writeln!(o, "E {i} harness fork/wait failed");
-                let _ = o.flush();
-            } else if libc::WIFSIGNALED(status) {
-                let mut o = out.lock();
-                let _ = writeln!(o, "E {i} died {}", libc::WTERMSIG(status));
-                let _ = o.flush();
-            } else if libc::WIFEXITED(status) && libc::WEXITSTATUS(status) != 0 {
-                let mut o = out.lock();
-                let _ = writeln!(o, "E {i} died -{}", libc::WEXITSTATUS(status));
-                let _ = o.flush();
-            }
+            // a probe that kills this process ends the batch; the parent sees a `B` without its `E`,
+            // records the death and restarts behind the culprit
+            let verdict = match pvkit::panics::guarded(|| targets::run(t, &bytes, Mode::DecodeOnly)) {
+                Ok(o) => (if o.ok { "ok" } else { "err" }).to_string(),
+                Err(p) => format!("panic {}", p.sig),
+            };
+            let mut o = out.lock();
+            let _ = writeln!(o, "E {i} {verdict}");
             if std::env::var_os("PV_DECODE_PROBE_TIMING").is_some() {
-                let mut o = out.lock();
                 let _ = writeln!(o, "T {i} {} ms {} bytes target {}", t0.elapsed().as_millis(), bytes.len(), t.name());
             }
+            let _ = o.flush();
         }
         std::process::exit(0)
     }
@@ -980,7 +960,8 @@ pub fn run(s: &Session) {
 
     // 8. isolated probes
     let mut probes = vec![];
-    let depths: Vec<u32> = s.pick(vec![1_000, 10_000, 100_000], vec![1_000, 10_000, 100_000, 1_000_000]);
+    // 100 000 levels is 4-20x every overflow threshold observed (5 283 .. 23 774 on an 8 MiB stack)
+    let depths: Vec<u32> = vec![1_000, 10_000, 100_000];
     let lens: [u32; 2] = [32, 62];
     // (a) hand-built hosts around the recursive ledger types
     // quick: the eras whose transactions / outputs carry the recursive types; thorough: every ledger entry point
@@ -1060,9 +1041,10 @@ pub fn run(s: &Session) {
         }
     }
     if std::env::var("PV_DECODE_SKIP_PROBES").is_err() {
-        // batches: probes of one kind and depth together, so that a replayed batch is small
-        probes.sort_by(|a, b| (a.kind.as_str(), a.n).cmp(&(b.kind.as_str(), b.n)));
-        let batches: Vec<ProbeBatch> = probes.chunks(256).map(|c| ProbeBatch { probes: c.to_vec() }).collect();
+        // batches: a fixed pseudo-random order spreads the probes that kill their process (each
+        // costs a restart of the batch child) evenly over the worker threads
+        probes.sort_by_cached_key(|p| fnv64(format!("{}|{}|{}|{}|{}", p.target.name(), p.kind, p.n, p.host, p.slot).as_bytes()));
+        let batches: Vec<ProbeBatch> = probes.chunks(128).map(|c| ProbeBatch { probes: c.to_vec() }).collect();
         s.note("isolated_probes", serde_json::json!(batches.iter().map(|b| b.probes.len()).sum::<usize>()));
         s.foreach("isolated-probes", batches, false, check_probe_batch(s));
         if std::env::var_os("PV_DECODE_KEEP_LISTS").is_none() {
